@@ -216,6 +216,14 @@ fn c01(a: &Args) -> Report {
         specs.push(t);
     }
     {
+        // duplicates disallowed: a put of a key whose newest record is a deletion marker is stored
+        let mut t = s.clone();
+        t.name = "C01/placement/no-duplicates".into();
+        t.depth = s.depth - 1;
+        t.wcfg.allow_duplicates = false;
+        specs.push(t);
+    }
+    {
         let mut t = s.clone();
         t.name = "C01/placement/alt-config-2".into();
         t.depth = s.depth - 1;
@@ -782,6 +790,28 @@ fn c13(a: &Args) -> Report {
             sp.keys = vec![0, 7];
             sp.bound = 2;
             sp.max_execs = if thorough { 30_000 } else { 2_000 };
+            sp.read_points = false;
+            sspecs.push(sp);
+        }
+    }
+    // the session is closed while the worker still has requests queued (no pause between the
+    // request and the close): close returns, and the index files requested before it exist
+    for (cname, clients) in [
+        ("TryClose;close", vec![vec![COp::M(Op::TryClose)]]),
+        ("FreeExcess;close", vec![vec![COp::M(Op::FreeExcess)]]),
+        ("CloseBg;close", vec![vec![COp::M(Op::CloseBg)]]),
+        ("W;Rot;close", vec![vec![COp::w(7, 10), COp::M(Op::Rot)]]),
+        ("TryClose|W;close", vec![vec![COp::M(Op::TryClose)], vec![COp::w(7, 10)]]),
+    ] {
+        for (pname, prefix) in [("active", vec![Op::w(0, 1)]), ("no-active", vec![Op::w(0, 1), Op::TryClose]), ("closed+active", vec![Op::w(0, 1), Op::Rot, Op::w(0, 2)])] {
+            let mode = if pname == "closed+active" { IoMode::Background } else { IoMode::Inplace };
+            let mut sp = SchedSpec::new(&format!("C13/sched/early-close/{pname}/{cname}"), mode, prefix, clients.clone());
+            sp.early_close = true;
+            sp.liveness_check = true;
+            sp.restart_at_end = false;
+            sp.keys = vec![0, 7];
+            sp.bound = 2;
+            sp.max_execs = if thorough { 30_000 } else { 1_000 };
             sp.read_points = false;
             sspecs.push(sp);
         }
